@@ -4,13 +4,13 @@ import json
 PROPS=[json.loads(l)['id'] for l in open('/verif/properties.jsonl')]
 # id -> (technique, level text, level note, design section)
 C = {
- 'C01': ("property-based testing: proptest over choice bytes decoded into circuit programs (small, large up to 130 gates, wide up to hundreds of constraints/commitments, custom Pedersen bases, party capacities), constraints spelled before their variables exist, every linear combination spelled through a rotating part of the operator set (incl. terms over Variable::Phantom), chained second proofs, plus fixed extreme statements (65 540 commitments, 70 000 constraints; thorough: 127..1024 gates); oracle = independent circuit model (model says satisfied => prove Ok and verify Ok)",
+ 'C01': ("property-based testing: proptest over choice bytes decoded into circuit programs (small, large up to 130 gates, wide up to hundreds of constraints/commitments, custom Pedersen bases, party capacities), constraints spelled before their variables exist, every linear combination spelled through a rotating part of the operator set (incl. terms over Variable::Phantom), chained second proofs, restated / extended rows, plus fixed extreme statements (65 540 commitments, 70 000 constraints, multiply operands of 257 .. 66 001 terms; thorough: 127..1024 gates); oracle = independent circuit model (model says satisfied => prove Ok and verify Ok)",
          "Generated-input search with shrinking over circuit programs (call sequences, both phases, scalar classes over the full field, three curves, independent capacities). Every accepted case was judged satisfied by an independent interpreter, so a reject is a completeness failure. Exploration, not proof: it samples thousands of shapes the suite never builds (single allocation path, zero gates, mixed phases, threshold capacities).",
          "Trusted: the circuit model (harness/src/model.rs), arkworks curve arithmetic, the vendored instrumented merlin (bit-compatible, KAT-checked).", "3/C01"),
  'C02': ("property-based testing: generated programs with injected violations (linear, constant-only, committed-only, gate via guarded hook, cancelling pairs, violated forward-reference constraints without a constant term, near-miss witnesses that satisfy a constraint with one term sign-flipped / dropped / doubled, X − Y = 0 for confusable variables, single violations far out incl. one term of a 66 000-term constraint), also through batch_verify (alone and beside the opposite violation) + exhaustive position sweeps of cancelling pairs (adjacent and block-distance pairs over 1100 constraint positions and 64/256 gate positions); oracle = model lists a violated row/gate => verify Err",
          "Generated bad witnesses pushed through the unmodified prover; the model decides which rows/gates the final assignment violates; any acceptance is a soundness failure. Covers enumerated violation classes incl. cancelling pairs that survive a degenerate z^q / y^n weighting.",
          "Trusted: circuit model; false-accept probability 2^-240 ignored; hook verif_overwrite_gate only overwrites the prover's assignment.", "3/C02"),
- 'C08': ("bounded exhaustive grid over (|L|,|R|, gates, fill, scalars, mode) + proptest over structurally arbitrary proof objects, raw and mutated byte strings, every public decode path (compressed / uncompressed, checked / unchecked, containers: empty, Option, nested, up to 1001 members with a 9000-round member under the heap bound) (+ libFuzzer c08_decode_verify with ASan in the thorough tier); oracle = no panic (catch_unwind), Ok/Err only, decode heap <= 64*len+64KiB",
+ 'C08': ("bounded exhaustive grid over (|L|,|R|, gates, fill, scalars, mode) + proptest over structurally arbitrary proof objects, raw and mutated byte strings, every public decode path (compressed / uncompressed, checked / unchecked, containers: empty, Option, nested, up to 1001 members with a 9000-round member under the heap bound) (+ libFuzzer c08_decode_verify with ASan in the thorough tier); oracle = no panic (catch_unwind), no death of the process (case-in-progress breadcrumbs traced back by ./check), Ok/Err only, decode heap <= 64*len+64KiB, verify heap <= 16MiB+4KiB*len",
          "Robustness exploration: exhaustive length grid and generated hostile inputs against decode / verify / batch_verify with a panic and heap oracle.",
          "Trusted: catch_unwind sees every panic in the panic=unwind harness build (debug assertions and overflow checks on); counting global allocator.", "3/C08"),
  'C11': ("property-based testing: round-trip / size-law / verdict-equality over proofs of generated programs; exhaustive strict-prefix enumeration; crafted single-field invalid encodings at every scalar and point slot, cancelling small-order pairs, uncompressed mode round trip and off-curve points in that mode, k = 12/13 (+ libFuzzer c11_roundtrip in the thorough tier)",
@@ -46,7 +46,7 @@ C.update({
  'C07': ("differential property-based testing: generated batches (mixed sizes/phases/order, invalid members at all positions, cancelling ±d sets, capacity-insufficient members, long batches, clean-room-prover members incl. partially filled / balanced second-phase slots) + distance sweep of a cancelling pair inside batches of up to 520 members, weight-ratio sweep, binomial error patterns at equally spaced positions, pairs a multiple of 2^10 apart in batches up to 8192, batches of 1 025 .. 20 011 members with one invalid member; oracle = batch verdict == AND of individual verdicts",
          "Batch vs. conjunction over generated batches including adversarially correlated invalid members.",
          "Trusted: individual verification (C01–C03).", "3/C07"),
- 'C09': ("metamorphic + algebraic property testing with a scripted transcript RNG: RNG construction events, seed laws, draw decoding, per-draw +1 sensitivity probes (bijection draw <-> blinding role; every draw of a fixed 70+66-gate circuit, sampled draws of other large circuits), openings against the model witness, recomputed blinding scalars, lower bound on consumed RNG output, blinding-factor sensitivity of the RNG under bases with known discrete-log relation, circuits at scale (4096+ gates, 1025+ commitments)",
+ 'C09': ("metamorphic + algebraic property testing with a scripted transcript RNG: RNG construction events, seed laws, draw decoding, per-draw +1 sensitivity probes (bijection draw <-> blinding role; every draw of a fixed 70+66-gate circuit, sampled draws of other large circuits), openings against the model witness, recomputed blinding scalars, lower bound on consumed RNG output, blinding-factor sensitivity of the RNG under bases with known discrete-log relation, circuits at scale (4096+ gates, 1025+ commitments; thorough: 16 384 and 32 800 gates in a phase), constant external randomness",
          "Establishes the structure of blinding on generated circuits: each role has its own fresh draw from the transcript-bound RNG; full algebraic opening for padded size 1.",
          "Trusted: instrumented merlin (scripted output only on request); decoding relies on the field sampler's representation and degrades to 'not evaluated'.", "3/C09"),
  'C10': ("differential property-based testing of the inner-product argument for k = 0..7 (plus fixed n = 256/512/1024 instances; thorough k <= 10): create -> k rounds; verify vs explicit-folding reference and closed form; 23 negative edits incl. non-power-of-two claimed lengths, −P and the other point with P's x-coordinate",
